@@ -2,6 +2,7 @@ package mon
 
 import (
 	"fmt"
+	"math/rand/v2"
 	"sort"
 	"strings"
 
@@ -73,9 +74,30 @@ func (m c11) Run(ctx *core.Ctx) {
 		} else {
 			cs.Check = "parse"
 		}
+		// how the list is observed: 0 = after every step, with Iterate (full pair sequence);
+		// 1 = after every step, without mutating reads (String/GetAll/Has only);
+		// 2 = only once, at the end, without mutating reads (no observer effect at all)
+		cs.N = r.IntN(3)
+		if i%32 == 5 {
+			cs = &core.Case{Check: "override-roundtrip", Config: []string{gen.Pick(r, []string{"encoding:latin1", "encoding:win1252"})}}
+			for j := 1 + r.IntN(4); j > 0; j-- {
+				cs.Ops = append(cs.Ops, sOp("sp.append", c11Latin(r), c11Latin(r)))
+			}
+		}
 		ctx.Begin(cs)
 		m.Exec(ctx, cs)
 	}
+}
+
+// c11Latin: strings within the Latin-1 repertoire, free of the delimiters of KF-B.
+func c11Latin(r *rand.Rand) string {
+	atoms := []string{"a", "b", "caf\u00e9", "\u00fc", "\u00ff", "\u00a0", "\u00e5\u00e6\u00f8", "x y", "~", "-", "_", ".", "!", "'", "(", ")", "*", "/", ":", ";", "?", "@", "", "1", "Z"}
+	n := 1 + r.IntN(3)
+	var sb strings.Builder
+	for i := 0; i < n; i++ {
+		sb.WriteString(gen.Pick(r, atoms))
+	}
+	return sb.String()
 }
 
 func readPairs(sp *url.SearchParams) []refmodel.Pair {
@@ -167,7 +189,51 @@ func stableAmongEqualNames(before, after []refmodel.Pair) bool {
 	return true
 }
 
-func (c11) Exec(ctx *core.Ctx, cs *core.Case) {
+// overrideRoundTrip: under an encoding override the serializer and the urlencoded parser must
+// use the same byte encoding: a list of Latin-1 strings survives serialize -> parse.
+func (c11) overrideRoundTrip(ctx *core.Ctx, cs *core.Case) {
+	p := buildParser(cs.Config)
+	u, err, pan := parseImpl(ctx, p, "http://h/", "", false, false)
+	if pan != nil || err != nil || u == nil {
+		return
+	}
+	var want []refmodel.Pair
+	var str string
+	if pan := ctx.Call(4096, func() {
+		for _, op := range cs.Ops {
+			u.SearchParams().Append(op.Arg(0), op.Arg(1))
+			want = append(want, refmodel.Pair{Name: op.Arg(0), Value: op.Arg(1)})
+		}
+		str = u.SearchParams().String()
+	}); pan != nil {
+		ctx.Violate("SearchParams operation panics under an encoding override", "", pan.String(), "")
+		return
+	}
+	ctx.Nontrivial()
+	ctx.Count("override_roundtrips")
+	u2, err2, pan2 := parseImpl(ctx, p, "http://h/?"+str, "", false, false)
+	if pan2 != nil || err2 != nil || u2 == nil {
+		ctx.Violate("the serialization of a parameter list does not parse as a query", str, errString(err2), "")
+		return
+	}
+	var got []refmodel.Pair
+	if pan := ctx.Call(4096, func() { got = readPairs(u2.SearchParams()) }); pan != nil {
+		return
+	}
+	if !pairsEqual(got, want) {
+		ctx.Violate("under an encoding override, serializing the list and parsing the result does not return the same list", pairsJSON(want), pairsJSON(got), cs.Config[0]+" String()="+fmt.Sprintf("%q", str))
+	}
+}
+
+// expectedStrings: the serializations (by the implementation's own serializer, on a fresh
+// URL) of the candidate orders the model allows; used by the non-mutating observation modes.
+func c11Serialize(pairs []refmodel.Pair) string { return implSerialize("http://h/", pairs) }
+
+func (m c11) Exec(ctx *core.Ctx, cs *core.Case) {
+	if cs.Check == "override-roundtrip" {
+		m.overrideRoundTrip(ctx, cs)
+		return
+	}
 	prefix := "http://h/"
 	if len(cs.Config) > 0 {
 		prefix = cs.Config[0]
@@ -190,7 +256,55 @@ func (c11) Exec(ctx *core.Ctx, cs *core.Case) {
 	}
 	model.Pairs = refmodel.ParseURLEncoded(query)
 	names := map[string]bool{}
+	mode := cs.N
+	ambiguous := false // candidate orders after a sort (non-mutating modes)
+	var candidates [][]refmodel.Pair
+	compareQuiet := func(where string) bool {
+		var str string
+		if pan := ctx.Call(len(input)+4096, func() { str = sp.String() }); pan != nil {
+			ctx.Violate("SearchParams read panics", "", pan.String(), where)
+			return false
+		}
+		cands := candidates
+		if len(cands) == 0 {
+			cands = [][]refmodel.Pair{model.Pairs}
+		}
+		for _, c := range cands {
+			if c11Serialize(c) == str {
+				model.Pairs = append([]refmodel.Pair(nil), c...)
+				candidates = nil
+				goto lookups
+			}
+		}
+		ctx.Violate("the parameter list (read without mutating: String) differs from the list model", c11Serialize(cands[0]), str, where+" query="+fmt.Sprintf("%q", query))
+		return false
+	lookups:
+		for _, p := range model.Pairs {
+			if strings.ContainsRune(p.Name, 0xFFFD) {
+				continue
+			}
+			var all []string
+			if pan := ctx.Call(len(p.Name)+64, func() { all = sp.GetAll(p.Name) }); pan != nil {
+				return false
+			}
+			for i := range all {
+				all[i] = refmodel.Scalar(all[i])
+			}
+			if want := model.GetAll(p.Name); strings.Join(all, "\x00") != strings.Join(want, "\x00") || len(all) != len(want) {
+				ctx.Violate("GetAll disagrees with the list model", fmt.Sprint(want), fmt.Sprint(all), where+" name="+fmt.Sprintf("%q", p.Name))
+				return false
+			}
+		}
+		return true
+	}
+	_ = ambiguous
 	compare := func(where string, roundTrip bool) bool {
+		if mode != 0 {
+			if mode == 2 && where != "at the end" {
+				return true
+			}
+			return compareQuiet(where)
+		}
 		var got []refmodel.Pair
 		var str string
 		if pan := ctx.Call(len(input)+4096, func() { got = readPairs(sp); str = sp.String() }); pan != nil {
@@ -248,8 +362,73 @@ func (c11) Exec(ctx *core.Ctx, cs *core.Case) {
 	if !compare("after init", true) {
 		return
 	}
+	if mode != 0 {
+		// the quiet modes need an unambiguous model: no names/values that stand for invalid bytes
+		for _, p := range model.Pairs {
+			if strings.ContainsRune(p.Name+p.Value, 0xFFFD) {
+				mode = 0
+			}
+		}
+		for _, op := range cs.Ops {
+			for _, a := range op.Args {
+				if strings.ContainsRune(refmodel.Scalar(string(a)), 0xFFFD) {
+					mode = 0
+				}
+			}
+		}
+	}
+	ctx.Count(fmt.Sprintf("observation_mode_%d", mode))
 	for i, op := range cs.Ops {
 		where := fmt.Sprintf("after step %d %s", i, clipS(op.String(), 120))
+		if mode != 0 && (op.Name == "sp.sort" || op.Name == "sp.sortabs") {
+			if pan := ctx.Call(opBytes(op)+len(input)+4096, func() { applyOp(u, op) }); pan != nil {
+				ctx.Violate("SearchParams operation panics", "", pan.String(), where)
+				return
+			}
+			ctx.Count("op:" + op.Name)
+			// every still-possible current order x every allowed collation
+			bases := candidates
+			if len(bases) == 0 {
+				bases = [][]refmodel.Pair{model.Pairs}
+			}
+			candidates = nil
+			for _, b := range bases {
+				candidates = append(candidates, c11SortCandidates(b, op.Name == "sp.sortabs")...)
+			}
+			if len(candidates) > 64 {
+				candidates = candidates[:64]
+			}
+			if !compare(where, false) {
+				return
+			}
+			continue
+		}
+		if mode != 0 && len(candidates) > 0 {
+			// an unobserved sort is pending (mode 2): apply the operation to every candidate order
+			if pan := ctx.Call(opBytes(op)+len(input)+4096, func() { applyOp(u, op) }); pan != nil {
+				ctx.Violate("SearchParams operation panics", "", pan.String(), where)
+				return
+			}
+			ctx.Count("op:" + op.Name)
+			a0, a1 := refmodel.Scalar(op.Arg(0)), refmodel.Scalar(op.Arg(1))
+			for k := range candidates {
+				l := &refmodel.List{Pairs: candidates[k]}
+				switch op.Name {
+				case "sp.append":
+					l.Append(a0, a1)
+				case "sp.delete":
+					l.Delete(a0)
+				case "sp.set":
+					l.Set(a0, a1)
+				}
+				candidates[k] = l.Pairs
+			}
+			model.Pairs = candidates[0]
+			if !compare(where, false) {
+				return
+			}
+			continue
+		}
 		before := append([]refmodel.Pair(nil), model.Pairs...)
 		var beforeRaw []refmodel.Pair
 		if op.Name == "sp.sort" {
@@ -306,6 +485,45 @@ func (c11) Exec(ctx *core.Ctx, cs *core.Case) {
 			return
 		}
 	}
+	if mode == 2 {
+		compare("at the end", false)
+	}
+}
+
+// c11SortCandidates: the orders a correct Sort / SortAbsolute may produce (stable; byte or
+// UTF-16 code unit collation; for SortAbsolute by name+value or by (name, value)).
+func c11SortCandidates(pairs []refmodel.Pair, absolute bool) [][]refmodel.Pair {
+	var out [][]refmodel.Pair
+	add := func(less func(a, b refmodel.Pair) bool) {
+		c := append([]refmodel.Pair(nil), pairs...)
+		sort.SliceStable(c, func(i, j int) bool { return less(c[i], c[j]) })
+		for _, o := range out {
+			if pairsEqual(o, c) {
+				return
+			}
+		}
+		out = append(out, c)
+	}
+	if !absolute {
+		add(func(a, b refmodel.Pair) bool { return a.Name < b.Name })
+		add(func(a, b refmodel.Pair) bool { return refmodel.LessUTF16(a.Name, b.Name) })
+		return out
+	}
+	add(func(a, b refmodel.Pair) bool { return a.Name+a.Value < b.Name+b.Value })
+	add(func(a, b refmodel.Pair) bool { return refmodel.LessUTF16(a.Name+a.Value, b.Name+b.Value) })
+	add(func(a, b refmodel.Pair) bool {
+		if a.Name != b.Name {
+			return a.Name < b.Name
+		}
+		return a.Value < b.Value
+	})
+	add(func(a, b refmodel.Pair) bool {
+		if a.Name != b.Name {
+			return refmodel.LessUTF16(a.Name, b.Name)
+		}
+		return refmodel.LessUTF16(a.Value, b.Value)
+	})
+	return out
 }
 
 func sortedByPair(ps []refmodel.Pair) bool {
